@@ -101,6 +101,7 @@ CELL = {
 contract(F, '_make_filter_array_general', tier='P', props=['C08'],
     types={'arr': 'CS', 'ids': 'Arr[Str]', 'metadata': 'Tup[Val]', 'func': 'Callback[Arr[Real],Str,Val]->Val',
            'axis': 'Int', 'invert': 'Int'},
+    returns='Arr[Int]',
     requires=[
         "0 <= axis and axis <= 1",
         "invert == 0 or invert == 1",
@@ -118,7 +119,6 @@ contract(F, '_make_filter_array_general', tier='P', props=['C08'],
         "    for i in ints() for p in ints() for q in ints() if trig(arr.indptr[i], arr.indices[p], arr.indices[q]))",
     ],
     ghost=CELL,
-    returns=None,
     ensures=[
         "len(result) == len(ids)",
         "ncalls(func) == len(ids)",
